@@ -1,8 +1,8 @@
 #!/usr/bin/env python3
 """Renders selftest/results.json as the markdown catch matrix of DESIGN.md section 11.5."""
-import json, os
+import json, os, sys
 d = os.path.dirname(os.path.abspath(__file__))
-r = json.load(open(os.path.join(d, "results.json")))
+r = json.load(open(os.path.join(d, sys.argv[1] if len(sys.argv) > 1 else "results.json")))
 print("| change | what it does | existing tests | caught by (signature) | missed by |")
 print("|---|---|---|---|---|")
 for k in sorted(r):
